@@ -9,6 +9,7 @@ package eval
 //	pipeline.enter / pipeline.start        before / after the interrupt check of a pipeline
 //	peach.acquire-enter / -return / peach.spawn / peach.release
 //	modules.read / modules.write / modules.iter   immediately before an access to Evaler.modules
+//	module.install-begin                   a module missed the table and is about to be installed
 //	module.exec-begin / module.exec-end    around the execution of a module's code
 //	eval.mu-locked                         Evaler.Eval holds Evaler.mu
 //
